@@ -1120,3 +1120,5 @@ def _run(world: World, plan, restore):
                                              fault.get('at') if fault else None])
 
 INFO['rule'] += ' Round-5 additions: step reload = load_data() once more on the same manager (model: exactly the configured directories, nothing indexed).'
+
+INFO['rule'] += ' Round-6 additions: words with sharp s / final sigma / micro sign / ligature used exactly as spelt; step rmtree (a shared or nested directory vanishes or becomes a plain file).'
